@@ -1,6 +1,7 @@
 """C16 — Interaction constructors validate and classify exactly."""
 from checks import big_scale
 from checks import pure_fns
+from checks import extra_c16sampler
 LEAN_TARGETS = ["QmcProps.C16", "drv_c16", "QmcProofs.PureFnsAgree"]
 BINS = ["c16"]
 
@@ -39,7 +40,25 @@ RULE = ("every matrix length 0..70 x variable-list length 0..4 x 4 constructor v
         "placed into New / Diag / NewOff (off the diagonal) matrices whose pairwise differences are exact in binary64 "
         "(a weight in (-EPS,0) must be rejected; |a-b| = EPS is different, the float below is equal); there the "
         "classification oracle only judges well-separated matrices, the model (which carries the tolerance) judges all. "
-        "Mode tolwit replays the Lean witness Qmc.C16.tolerance_witness (finding F23) with the literal oracle.")
+        "Mode tolwit replays the Lean witness Qmc.C16.tolerance_witness (finding F23) with the literal oracle. "
+        "Mode qmcctor (sampler-level constructors, F31; model QmcModel/QmcCtor.lean): the F31 witness input; every order of "
+        "random triples of valid in-range calls (symmetric / symmetry-breaking / third of a random class); random sequences of "
+        "3..10 calls of the four make_*interaction* entry points on ONE DefaultQmc with 1..5 variables, variables drawn from "
+        "0..nvars+2 (about a third of the calls name a variable the sampler does not have), 1/8 repeated variables, matrices "
+        "with entries k/4 of class any/symmetric/breaking/constant/constant-diagonal, offset variants shifted by k/4 (also below "
+        "zero), 1/10 a negative entry, 1/14 a wrong size; once a bond is stored, time steps (12, three betas, heat-bath on/off) "
+        "and clones (continue on the clone or not) are interleaved; after EVERY event the private fields (#bonds, offset, "
+        "has_cluster_edges, breaks_ising_symmetry, non_const_diags, bond_weights present) are read through the serde snapshot "
+        "and compared with the model; oracle (real code only, harness's own rule on the matrices it passed): Err <=> size "
+        "mismatch or negative weight after the shift or repeated variable or variable >= nvars; a rejected call leaves all "
+        "fields unchanged; accepted calls give exactly the expected fields; a clone has identical fields; no panic when "
+        "sampling. Non-trivial = a sequence with at least one accepted and one rejected call (or a planned one). "
+        "Mode afterconv (F32; model-free oracle, the model side answers the constant ok): QmcIsingGraph (chain / ring of 2..5 "
+        "spins, J = +-k/4, Gamma, h = 0 in 3/7 of the cases) stepped 0..40 times (heat-bath 1/3), into_qmc, 1..nvars+3 further "
+        "VALID interactions of all four kinds, 40 time steps with loops on/off and heat-bath on/off; oracle: no panic, every "
+        "call accepted, the operator string closes on the state (vh::propagate_check and OpContainer::verify), every operator "
+        "belongs to a registered bond and acts on its variables, get_bond_count(b) = direct count for every bond, get_n() = total; "
+        "plus the two F32 witness scenarios.")
 
 
 def main(ck):
@@ -50,5 +69,10 @@ def main(ck):
         cases = ck.harness("c16", ["all"])
         ck.correspond("interaction-constructors", "drv_c16", cases)
         ck.correspond("tolerance-witness", "drv_c16", ck.harness("c16", ["tolwit"]))   # known finding F23
+        # sampler-level constructors on one sampler (F31): model QmcModel/QmcCtor.lean, theorems QmcProps/C16Sampler.lean
+        ck.correspond("qmc-constructors", "drv_c16", ck.harness("c16", ["qmcctor"]))
+        # interactions added after into_qmc, then sampled (F32): model-free oracle
+        ck.correspond("after-conversion", "drv_c16", ck.harness("c16", ["afterconv"]))
+    extra_c16sampler.run(ck)   # sampler-level theorems (QmcProps/C16Sampler.lean), audited
     big_scale.run(ck, "manyvars")   # large-scale regime (>65536 bonds/ops/slots, release semantics): model-free oracles of the property statements
     return ck.finish(RULE)
